@@ -26,7 +26,6 @@
 #include "log_int.h"
 #include "util_int.h"
 #include "verif.h"
-#include "alloc.h"
 #include "atomic.h"
 #include "log_os.h"
 
@@ -195,8 +194,7 @@ static struct qb_log_callsite *verif_build_cs(const char *function, const char *
 	VERIF_ND(uint32_t, nd_cs_lineno);
 	VERIF_ND(uint32_t, nd_cs_targets);
 	VERIF_ND(uint32_t, nd_cs_tags);
-	struct qb_log_callsite *cs = malloc(sizeof(*cs));
-	ASSUME(cs != NULL);
+	struct qb_log_callsite *cs = verif_new(sizeof(*cs));
 	ASSUME(nd_cs_lineno > 0);
 	cs->function = function;
 	cs->filename = filename;
